@@ -90,7 +90,11 @@ def h2_history(draw: Any) -> Dict[str, Any]:
     steps = []
     for _ in range(draw(st.integers(1, 5))):
         kind = draw(st.sampled_from(["stream", "stream", "pause", "pause", "two_streams",
-                                     "terminated", "peer_loss", "rejected"]))
+                                     "terminated", "peer_loss", "rejected", "reset_stream"]))
+        if kind == "reset_stream":
+            # the client gives up on its only open stream: no request in progress any more
+            steps.append({"op": "reset_stream", "after": draw(st.sampled_from([0.0, T / 4, T]))})
+            continue
         if kind == "rejected":
             # a request the server answers itself (no application): idle again from then on
             steps.append({"op": "rejected",
@@ -430,6 +434,26 @@ async def run_h2(env: Any, case: Dict[str, Any], app: Any) -> Dict[str, Any]:
             await env.set_terminated()
             tm.terminated_at = env.now()
             await env.settle0()
+        elif op == "reset_stream":
+            if tm.terminated_at is not None:
+                continue
+            sid = open_stream(1000 * T)
+            tm.busy()
+            await env.settle0()
+            await env.sleep(step["after"])
+            client.pump()
+            if tm.check(where + " (before the reset)"):
+                break
+            try:
+                client.h2.reset_stream(sid)
+                client.flush()
+            except Exception as e:
+                raise Violation("client_refused", repr(e), backend=env.backend)
+            nontrivial = True
+            t_rst = env.now()
+            await env.settle0()
+            tm.idle(t_rst)
+            tm.notes.append(f"client reset its only stream at {t_rst}")
         elif op == "rejected":
             if tm.terminated_at is not None:
                 continue
